@@ -107,6 +107,12 @@ Spec == Init /\ [][Next]_vars
 \* no deadlock: while a ceremony is unfinished, some step is possible
 NoDeadlock == (~AllDone) => ENABLED Next
 
+\* the same as a liveness property: under weak fairness of the scheduler (a step that stays possible is taken) every
+\* schedule ends with all ceremonies finished - neither a deadlock nor a cycle of steps that never finishes.
+\* Checked without state constraint and without VIEW (ConcMC_live_*.cfg).
+FairSpec == Spec /\ WF_vars(Next)
+Termination == <>(obs.final)
+
 PropertiesHold == \/ CP!Violated(obs) \subseteq Known
                   \/ PrintT(<<"VIOLATED", CP!Violated(obs) \ Known>>) /\ FALSE
 
